@@ -316,6 +316,73 @@ func languageChurn(r *ev.Run, thorough bool, n *int64) {
 	r.Set("language_churn_distinct_tags", steps)
 }
 
+// reportWrapAround: the vector K is reported (twice, in Japanese), then exactly n other reports are
+// built — n language changes on another vector, or n distinct vectors never reported before — with
+// no report of K in between, then K is reported again in another language and must be the English
+// report it would be in a fresh process.  n runs over the places where an 8- or 16-bit counter or
+// a table of 2^16 entries wraps: 255..257 and 65,535..65,537 (round 7, C17-A-r7: a 65,536-entry
+// slab recycled under a stale front pointer; C17-B-r7: a uint16 generation stamp).
+func reportWrapAround(r *ev.Run, thorough bool, n *int64) {
+	bgs := reportBackgrounds()
+	K, err := v3.NewEnvironmental().Decode(canonicalWritten(3, 2, bgs[0].ver, bgs[0].tok))
+	other, err2 := v3.NewEnvironmental().Decode(canonicalWritten(3, 2, bgs[1].ver, bgs[1].tok))
+	if err != nil || err2 != nil {
+		return
+	}
+	rep := func(m *v3.Environmental, l language.Tag) string {
+		return dump.Of(report.NewEnvironmental(m, report.WithOptionsLanguage(l)))
+	}
+	refFr, refJa := rep(K, language.French), rep(K, language.Japanese)
+	ems := spec.At(3, 2)
+	bms := spec.At(3, 0)
+	distinct := func(i int) *v3.Environmental {
+		// base vector i (mod 2592) with environmental values from the higher digits: never K, never repeated
+		tok := map[string]string{}
+		x := i
+		for _, m := range bms {
+			tok[m.Name] = m.Codes[x%len(m.Codes)].Code
+			x /= len(m.Codes)
+		}
+		for _, m := range ems {
+			tok[m.Name] = m.Codes[x%len(m.Codes)].Code
+			x /= len(m.Codes)
+		}
+		m, err := v3.NewEnvironmental().Decode(canonicalWritten(3, 2, "3.1", tok))
+		if err != nil {
+			return other
+		}
+		return m
+	}
+	counts := []int{255, 256, 257, 65535, 65536, 65537}
+	used := 0
+	for _, mode := range []string{"language changes on another vector", "distinct vectors never reported before"} {
+		for _, cnt := range counts {
+			rep(K, language.Japanese)
+			rep(K, language.Japanese)
+			for i := 0; i < cnt; i++ {
+				if mode[0] == 'l' {
+					report.NewEnvironmental(other, report.WithOptionsLanguage([]language.Tag{language.English, language.French}[i%2]))
+				} else {
+					report.NewEnvironmental(distinct(used), report.WithOptionsLanguage(language.Japanese))
+					used++
+				}
+			}
+			*n += int64(cnt) + 4
+			got := rep(K, language.French)
+			if got2 := rep(K, language.Japanese); got != refFr || got2 != refJa {
+				what := "the report of K in French (English names expected)"
+				if got == refFr {
+					what, got, refFr = "the report of K in Japanese", got2, refJa
+				}
+				r.Violate(ev.Violation{Kind: "report-changes-after-a-long-history", Case: map[string]any{"vector": canonicalWritten(3, 2, bgs[0].ver, bgs[0].tok),
+					"history": fmt.Sprintf("K reported twice in Japanese; then exactly %d reports: %s, none of K; then %s", cnt, mode, what)}, Observed: got, Expected: refFr})
+				return
+			}
+		}
+	}
+	r.Set("report_wrap_around_counts", counts)
+}
+
 // optionLists: every list of one to three language options over {en, ja, fr, und} (84 lists) at
 // every report constructor.  What several language options mean is not spelled out by the
 // property, so the oracle is deliberately weak: (a) the whole report — the outer level and both
@@ -612,6 +679,7 @@ func init() {
 		})
 		r.Phase("language orders", func() { languageOrders(r, langs, &n) })
 		r.Phase("language churn", func() { languageChurn(r, thorough, &n) })
+		r.Phase("counter wrap-around", func() { reportWrapAround(r, thorough, &n) })
 		r.Phase("reports after field assignment", func() { reportsAfterAssignment(r, langs[:3], &n) })
 		r.Phase("language option lists", func() { optionLists(r, &n) })
 		for bi, bg := range reportBackgrounds() {
